@@ -342,4 +342,9 @@ theorem generated_server_structure :
 theorem onError_reaction : ∀ f ∈ allFrontends,
     (reaction f = 0 ↔ (f.onErrorSrc = "close" ∧ f ≠ .syncUdp)) ∧ (reaction f = 1 ↔ f.onErrorSrc = "reset") := by decide
 
+/-- tie to the source: the model hands every datagram WHOLE to the handler; the receive buffer socketserver uses for the
+    sync UDP server (`max_packet_size`, read off the class on this run) holds every legal ADU (260 bytes on the socket
+    framing, 515 in ASCII) -/
+theorem generated_udp_buffer : 520 ≤ Generated.syncUdpMaxPacket := by decide
+
 end Pymodbus.Props.C17
